@@ -3,6 +3,7 @@ package gen
 import (
 	"encoding/json"
 	"fmt"
+	"math"
 	"net/url"
 	"strconv"
 	"strings"
@@ -138,6 +139,10 @@ func GenRecord(r *rng.Rand, n *spec.Node, validPct int, o FrontOpts) any {
 				out[i] = n.Elem.Witness // flat sources cannot carry a missing element
 			}
 		}
+		if k >= 2 && !o.EnvOnly && r.Intn(100) < 12 {
+			// a blank occurrence of a repeated parameter / a blank list element: a missing element at that position
+			out[r.Intn(k)] = RawText([]string{"", " "}[r.Intn(2)])
+		}
 		return out
 	case spec.Ptr:
 		if n.Elem.Kind.IsPrimitive() && r.Intn(100) < 25 {
@@ -156,7 +161,21 @@ func GenRecord(r *rng.Rand, n *spec.Node, validPct int, o FrontOpts) any {
 	if c < validPct+8 {
 		return RawText([]string{"abc", "1x", "--", "maybe?", "2024-99-99"}[r.Intn(5)])
 	}
-	return recLeaf(n, otherValue(r, n))
+	v := otherValue(r, n)
+	if f, ok := toF64(v); ok && (math.IsNaN(f) || math.IsInf(f, 0)) {
+		v = n.Witness // a record has to be expressible in JSON
+	}
+	return recLeaf(n, v)
+}
+
+func toF64(v any) (float64, bool) {
+	switch x := v.(type) {
+	case float64:
+		return x, true
+	case float32:
+		return float64(x), true
+	}
+	return 0, false
 }
 
 func recLeaf(n *spec.Node, v any) any {
